@@ -142,7 +142,7 @@ class ObjectTranscoder(RecordTranscoder):
                     except AttributeError:
                         try:
                             value = value[int(field)]
-                        except (ValueError, IndexError):
+                        except (ValueError, IndexError, TypeError, KeyError):
                             # Field not found in object.
                             value = None
                             break
